@@ -464,7 +464,7 @@ def hidden_state(run, repo, I, store):
     evaluated before in the same process.  After the sweep over the first object of every closed-form class (in the
     interpreter ``I``, which keeps everything the program keeps: class-level and module-level containers, memo
     dictionaries, cached attributes) a SECOND object of the class with parameters of its own is evaluated at the same
-    T, P and at a second T2, P2, the first object is evaluated at T2, P2, and then once more at T, P.  Each value must
+    T, P and at a second T2, P2, the first object is evaluated at T2, P2 (thorough tier) and then once more at T, P.  Each value must
     be what a process that has evaluated nothing else reports for that object and those conditions (a fresh
     interpreter per object and condition: the reference shares nothing)."""
     D = I.D
@@ -485,8 +485,9 @@ def hidden_state(run, repo, I, store):
         plan.append((label, 'second object', second[label], '#2', conds[0]))
     for label in second:
         plan.append((label, 'second object', second[label], '#2', conds[1]))
-    for label in second:
-        plan.append((label, 'first object', store[label][0], '', conds[1]))
+    if run.tier == 'thorough':
+        for label in second:
+            plan.append((label, 'first object', store[label][0], '', conds[1]))
     for label, which, ob, suffix, (cname, cond) in plan:
         want = fresh(label, suffix, cond)
         kw = {k: D.sym(v) for k, v in cond.items()}
@@ -1471,7 +1472,7 @@ def check(run, repo):
     n = ident(run, repo, I, store)
     run.floor('IDENT instances', n, 3)
     n = hidden_state(run, repo, I, store)
-    run.floor('no-hidden-state instances', n, 300)
+    run.floor('no-hidden-state instances', n, 250)
 
 V = 'pmutt/statmech/vib.py'
 R_ = 'pmutt/statmech/rot.py'
